@@ -21,7 +21,7 @@ static int g_journal_fd = -1;
 struct Stats {
     long evaluations = 0, nontrivial = 0, discarded = 0, failures = 0;
     std::set<uint64_t> hashes; std::map<std::string, long> labels, counters, excluded;
-    std::vector<std::string> samples; double max_ratio = 0; bool frozen = false;
+    std::vector<std::string> samples; std::string last_nontrivial; double max_ratio = 0; bool frozen = false;
 } g_stats;
 
 static std::string jesc(const std::string &s) { std::string o; for (unsigned char c : s) { if (c == '"' || c == '\\') { o += '\\'; o += (char)c; } else if (c == '\n') o += "\\n"; else if (c < 32) { char b[8]; snprintf(b, sizeof b, "\\u%04x", c); o += b; } else o += (char)c; } return o; }
@@ -34,6 +34,7 @@ static void dump_stats() {
     fprintf(f, "\"rule\":\"%s\",\n", g_prop ? jesc(g_prop->rule).c_str() : "");
     auto dumpmap = [&](const char *name, const std::map<std::string, long> &m) { fprintf(f, "\"%s\":{", name); bool first = true; for (auto &kv : m) { fprintf(f, "%s\"%s\":%ld", first ? "" : ",", jesc(kv.first).c_str(), kv.second); first = false; } fprintf(f, "},\n"); };
     dumpmap("labels", g_stats.labels); dumpmap("counters", g_stats.counters); dumpmap("excluded", g_stats.excluded);
+    if (g_stats.samples.empty() && !g_stats.last_nontrivial.empty()) g_stats.samples.push_back(g_stats.last_nontrivial);   // short runs: at least the last non-trivial case
     fprintf(f, "\"samples\":["); for (size_t i = 0; i < g_stats.samples.size(); i++) fprintf(f, "%s\"%s\"", i ? "," : "", jesc(g_stats.samples[i]).c_str()); fprintf(f, "],\n");
     fprintf(f, "\"hashes\":["); bool first = true; for (auto h : g_stats.hashes) { fprintf(f, "%s\"%016llx\"", first ? "" : ",", (unsigned long long)h); first = false; } fprintf(f, "]}\n");
     fclose(f); rename(tmp.c_str(), g_out.c_str());
@@ -70,8 +71,9 @@ static void account(const RunResult &r) {
     for (auto &e : r.ctx.excluded) g_stats.excluded[e]++;
     if (r.ctx.max_ratio > g_stats.max_ratio) g_stats.max_ratio = r.ctx.max_ratio;
     if (r.ctx.nontrivial) {
-        g_stats.nontrivial++;
-        if (g_stats.hashes.insert(fnv1a(r.ctx.text)).second && g_stats.samples.size() < 8 && (g_stats.hashes.size() % 97 == 1 || g_stats.samples.size() < 2)) g_stats.samples.push_back(r.ctx.text);
+        g_stats.nontrivial++; g_stats.last_nontrivial = r.ctx.text;
+        if (g_stats.hashes.insert(fnv1a(r.ctx.text)).second) { size_t h = g_stats.hashes.size();   // samples spread over the run (rapidcheck grows the size with the case index): the 40th, 160th, 640th ... distinct non-trivial case
+            if (g_stats.samples.size() < 8 && (h == 40 || h == 160 || h == 640 || h == 2560 || h == 10240 || h == 40960)) g_stats.samples.push_back(r.ctx.text); }
     }
 }
 
